@@ -144,6 +144,9 @@ def audit_sources(rels):
 # ------------------------------------------------------------------ harness builds
 
 HARNESS_FILES = {
+    "hist": {
+        "internal/persistence/jsondb/zz_verif_hooks.go": "go/hooks/jsondb_hooks_verif.go",
+    },
     "sched": {
         "internal/dag/scheduler/zz_verif_hooks.go": "go/hooks/dagscheduler_hooks_verif.go",
     },
